@@ -100,13 +100,11 @@ func checkC02(P *Prog, r *Result) {
 							}
 							iff := condOf(b)
 							okExit := false
-							if iff != nil {
-								if _, f := loadOfField(cv(iff.Cond)); f != nil && sameField(f, R.FExit) && k == 0 {
-									okExit = true
-								}
+							if iff != nil && condImpliesFieldTrue(iff.Cond, k == 0, R.FExit, 0) {
+								okExit = true
 							}
 							for _, gd := range guardsOf(b) {
-								if _, f := loadOfField(cv(gd.If.Cond)); f != nil && sameField(f, R.FExit) && gd.True {
+								if condImpliesFieldTrue(gd.If.Cond, gd.True, R.FExit, 0) {
 									okExit = true
 								}
 							}
